@@ -34,19 +34,50 @@ type Emitter struct {
 	StripLiterals bool
 }
 
-// Precedence of the boolean, negation and comparison expressions of the model, loosest first, as the openCypher
-// grammar nests them. Every other expression binds tighter than all of these.
+// Precedence of the boolean, negation, comparison and arithmetic expressions of the model, loosest first, as the
+// openCypher grammar nests them. Every other expression binds tighter than all of these.
 const (
 	precedenceDisjunction = iota + 1
 	precedenceExclusiveDisjunction
 	precedenceConjunction
 	precedenceNegation
 	precedenceComparison
+	precedenceAddOrSubtract
+	precedenceMultiplyDivideModulo
+	precedencePowerOf
+	precedenceUnaryAddOrSubtract
 	precedenceAtom
 )
 
+// operatorPrecedence returns the precedence of the expression that an arithmetic operator joins.
+func operatorPrecedence(operator cypher.Operator) int {
+	switch operator {
+	case cypher.OperatorAdd, cypher.OperatorSubtract:
+		return precedenceAddOrSubtract
+	case cypher.OperatorMultiply, cypher.OperatorDivide, cypher.OperatorModulo:
+		return precedenceMultiplyDivideModulo
+	case cypher.OperatorPowerOf:
+		return precedencePowerOf
+	default:
+		return precedenceAtom
+	}
+}
+
+// comparisonOperandPrecedence returns the precedence an operand of a comparison must have to be written bare. The
+// string, list and null operators are part of the grammar's innermost operator expression: next to them only an atom
+// keeps its grouping. Operands of the other comparison operators are arithmetic expressions; a comparison among
+// them would be read as one more link of a comparison chain.
+func comparisonOperandPrecedence(operator cypher.Operator) int {
+	switch operator {
+	case cypher.OperatorStartsWith, cypher.OperatorEndsWith, cypher.OperatorContains, cypher.OperatorIn, cypher.OperatorIs, cypher.OperatorIsNot:
+		return precedenceAtom
+	default:
+		return precedenceAddOrSubtract
+	}
+}
+
 func operandPrecedence(expression cypher.Expression) int {
-	switch expression.(type) {
+	switch typedExpression := expression.(type) {
 	case *cypher.Disjunction:
 		return precedenceDisjunction
 	case *cypher.ExclusiveDisjunction:
@@ -56,7 +87,28 @@ func operandPrecedence(expression cypher.Expression) int {
 	case *cypher.Negation:
 		return precedenceNegation
 	case *cypher.Comparison:
+		if len(typedExpression.Partials) == 0 {
+			return operandPrecedence(typedExpression.Left)
+		}
+
 		return precedenceComparison
+	case *cypher.ArithmeticExpression:
+		// An arithmetic expression binds as loosely as the loosest operator it joins its operands with
+		precedence := precedenceAtom
+
+		if len(typedExpression.Partials) == 0 {
+			return operandPrecedence(typedExpression.Left)
+		}
+
+		for _, part := range typedExpression.Partials {
+			if part != nil && operatorPrecedence(part.Operator) < precedence {
+				precedence = operatorPrecedence(part.Operator)
+			}
+		}
+
+		return precedence
+	case *cypher.UnaryAddOrSubtractExpression:
+		return precedenceUnaryAddOrSubtract
 	default:
 		return precedenceAtom
 	}
@@ -626,7 +678,13 @@ func (s Emitter) WriteExpression(output io.Writer, expression cypher.Expression)
 		}
 
 	case *cypher.Comparison:
-		if err := s.writeOperand(output, precedenceComparison, typedExpression.Left); err != nil {
+		leftPrecedence := precedenceAddOrSubtract
+
+		if len(typedExpression.Partials) > 0 && typedExpression.Partials[0] != nil {
+			leftPrecedence = comparisonOperandPrecedence(typedExpression.Partials[0].Operator)
+		}
+
+		if err := s.writeOperand(output, leftPrecedence, typedExpression.Left); err != nil {
 			return err
 		}
 
@@ -649,7 +707,7 @@ func (s Emitter) WriteExpression(output io.Writer, expression cypher.Expression)
 			return err
 		}
 
-		if err := s.writeOperand(output, precedenceComparison, typedExpression.Right); err != nil {
+		if err := s.writeOperand(output, comparisonOperandPrecedence(typedExpression.Operator), typedExpression.Right); err != nil {
 			return err
 		}
 
@@ -861,7 +919,8 @@ func (s Emitter) WriteExpression(output io.Writer, expression cypher.Expression)
 		return s.formatPatternElements(output, typedExpression.PatternElements)
 
 	case *cypher.ArithmeticExpression:
-		if err := s.WriteExpression(output, typedExpression.Left); err != nil {
+		// The operators of one level group from the left, so the left operand may be of the same level
+		if err := s.writeOperand(output, operandPrecedence(typedExpression), typedExpression.Left); err != nil {
 			return err
 		}
 
@@ -884,14 +943,15 @@ func (s Emitter) WriteExpression(output io.Writer, expression cypher.Expression)
 			return err
 		}
 
-		return s.WriteExpression(output, typedExpression.Right)
+		// A right operand of the same level would join the operators to its left when the text is parsed again
+		return s.writeOperand(output, operatorPrecedence(typedExpression.Operator)+1, typedExpression.Right)
 
 	case *cypher.UnaryAddOrSubtractExpression:
 		if _, err := io.WriteString(output, typedExpression.Operator.String()); err != nil {
 			return err
 		}
 
-		return s.WriteExpression(output, typedExpression.Right)
+		return s.writeOperand(output, precedenceUnaryAddOrSubtract, typedExpression.Right)
 
 	default:
 		return fmt.Errorf("unexpected expression type for string formatting: %T", expression)
